@@ -2,8 +2,12 @@ SPECIFICATION Spec
 CONSTANTS K = 1 SendPuncture = TRUE PunctureFirst = TRUE FollowAll = TRUE MaxId = 60 QuietCalls = TRUE
           APlaces = {"pub", "nat"} CandPlaces = {"pub", "nat", "withA", "withI"}
           MaxContactsA = 2 MaxContactsB = 2
+          MinContacts = 1 MaxRebinds = 0 Clock0 = 0 Refresh = TRUE Ident16 = TRUE
 INVARIANT TypeOK
 INVARIANT Reach
 INVARIANT LanMeet
 INVARIANT AsksPuncture
+INVARIANT HandsOutCurrent
+INVARIANT HoldsWorking
+INVARIANT IdentFits
 CHECK_DEADLOCK TRUE
